@@ -16,46 +16,46 @@ def C(text, note, technique, design):
     return dict(text=text, note=TB + note, technique=technique, design=design)
 
 CLAIMS = {
- "C01": C("Lean: soundness of top-down validation/execution w.r.t. a denotational evaluator for write-free programs over all histories (Faithful store invariant); local theorems for programs with writes. " + CORR + "Oracle: every session's outputs and resource contents equal a from-scratch build run on the real crates.",
-          "Full statement for programs with writes is stated, proved only in parts (see evidence stated_not_proved).", "Lean 4 invariant/refinement proof over hand-written model + differential correspondence + clean-build oracle", "§5 C01"),
- "C02": C("Lean: once-per-session, justification of every execution, idempotence, validation in creation order. " + CORR + "Oracle: <=1 execution per task per session, every execution preceded by its first require or a failed dependency check, nothing executes on an unchanged re-require, validation order = recorded creation order, exact-checker executions are a subset of the from-scratch build's.",
-          "minimality clause proved for write-free programs.", "Lean 4 proof over hand-written model + differential correspondence", "§5 C02"),
- "C03": C("Lean: bottom-up scheduling lemmas and the closure invariant under Reported and ShallowReq. " + CORR + "Oracle: after update_affected_tasks, requiring every known task executes nothing and returns from-scratch outputs. Known finding K1 (partial top-down session before the bottom-up build) recorded.",
-          "C03_statement partial; K1 is a genuine defect recorded in known_findings.json.", "Lean 4 proof over hand-written model + differential correspondence", "§5 C03"),
- "C04": C("Lean: the queue as a pure data structure for unbounded contents (pop returns the greatest rank, popped task has no queued dependency, pop_least spec, swap_remove harmless, drain order). " + CORR + "Oracle: every bottom-up execution is scheduled or newly required, at most once, never before a scheduled dependency.",
-          "at-most-once is covered by the oracle and the correspondence, not yet by a theorem.", "Lean 4 proof (queue + rank order) + differential correspondence", "§5 C04"),
- "C05": C("Lean: exact characterisation of when read/write/written_to abort with a hidden dependency, abort-before-modification for Context::write. " + CORR + "Oracle: every reader of a generated resource reaches its writer in the store dump of every build that returned; content unchanged at an aborted write. Known finding K4 (dependency erosion) recorded.",
-          "global clause false on the real code (K4).", "Lean 4 proof of the detection logic + differential correspondence", "§5 C05"),
- "C06": C("Lean: overlap abort exactly when a writer is recorded, before the resource is modified. " + CORR + "Oracle: <=1 writer per resource in every store dump, content unchanged at abort, well-formed programs never report an overlap.",
-          "", "Lean 4 proof of the detection logic + differential correspondence", "§5 C06"),
- "C07": C("Lean: cycle criterion of add_edge (C10) lifted to require; " + CORR + "Oracle: statically cyclic programs abort with a cyclic-dependency error, no task is entered twice, no stack overflow/timeout.",
-          "", "Lean 4 proof + differential correspondence", "§5 C07"),
- "C08": C("Lean: graph frame lemmas (C11) give recorded = performed dependency operations. " + CORR + "Oracle: store dump (hook) of every executed task equals the dependency operations of its latest execution. Known finding K2 (several checkers on one target) recorded.",
-          "needs OneChecker; K2 otherwise.", "Lean 4 proof + differential correspondence on the store dump", "§5 C08"),
- "C09": C("Lean: stamp provenance (reader content / content after the write / returned output) and verdict = own checker on own stamp, for arbitrary checker semantics. " + CORR + "Instrumented harness checkers.",
-          "", "Lean 4 decision-logic theorems + differential correspondence", "§5 C09"),
+ "C01": C("Lean: every output returned by a top-down Session::require in any history equals the from-scratch semantics. Write-free programs: C01_sources (histories of external changes and top-down sessions, any aborted), C01_sources_mixed / C01_mixed_equals_clean_build (histories that also contain bottom-up builds, told incomplete change sets or aborted; hypothesis OReflexive, shown necessary by a kernel-checked counterexample). Programs WITH writes and static roles: C01_full_history_equals_clean_build (outputs AND contents of every resource equal the from-scratch build, external edits of generated resources included; WriteExact shown necessary). Store invariants Faithful/FaithfulO preserved by every function also on abort. " + CORR + "Oracle: every session's outputs and resource contents equal a from-scratch build run on the real crates.",
+          "Role-changing programs with writes: no theorem (findings K3/K4); failing stampers excluded by StampTotal (finding K5).", "Lean 4 invariant/refinement proof over hand-written model + differential correspondence + clean-build oracle", "§0.1, §5 C01"),
+ "C02": C("Lean: at most one execution per task per session in every history also when the session aborts (C02_exec_once), every execution justified by a failed/erroring check event or a missing output (C02_exec_justified_trace, unconditional), idempotence: a repeated require/session with nothing changed executes nothing and returns the same outputs, for write-free programs (C02_idempotent*) and for programs with writes under static roles (C02_idempotent_writes*, after any history), validation in creation order (C11_outgoing_complete + C08_recorded_eq_performed), minimality (C02_minimal: every executed task is demanded by the from-scratch build). " + CORR + "Oracle: <=1 execution per task per session, every execution preceded by its first require or a failed dependency check, nothing executes on an unchanged re-require or repeated session, validation order = recorded creation order, exact-checker executions are a subset of the from-scratch build's.",
+          "idempotence/minimality theorems carry Reflexive / static-role hypotheses.", "Lean 4 proof over hand-written model + differential correspondence", "§0.1, §5 C02"),
+ "C03": C("Lean: after a returning bottom-up build whose change set covers every rejected read/write stamp (Reported) from a state with ShallowReq and NoOrphan, the queue is empty, every known task is consistent, requiring any of them (same or new session) executes nothing and returns the from-scratch output; the hypotheses are re-established for the next round (any number of rounds). Write-free programs: C03_closure, C03_sources, C03_chain; programs WITH writes under static roles: C03_closure_writes, C03_sources_writes, C03_chain_writes, C03_rounds_writes (outputs = Den, contents = overlay). ShallowReq shown necessary: finding K1 (kernel-checked). " + CORR + "Oracle: after update_affected_tasks, requiring every known task executes nothing and returns from-scratch outputs.",
+          "K1 (partial top-down session before the bottom-up build) is a genuine defect recorded in known_findings.json.", "Lean 4 closure-invariant proof over hand-written model + differential correspondence", "§0.1, §5 C03"),
+ "C04": C("Lean: the queue as a pure data structure for unbounded contents (pop = greatest rank, popped task has no queued dependency, pop_least spec, swap_remove harmless, drain order); every execution of a bottom-up build is justified (C04_exec_justified: scheduled earlier in the build, or no output; C04_schedule_justified: every schedule event directly follows a failed/erroring check of a dependency of that task; C04_consistent_not_executed) for ALL programs; at most once per build (C04_bu_once, C04_bu_once_writes) under NoOrphan (necessary: finding K7). " + CORR + "Oracle: every bottom-up execution is scheduled or newly required, at most once, never before a scheduled dependency.",
+          "K7 (double execution after an abort) recorded in known_findings.json.", "Lean 4 proof (queue, rank order, trace justification) + differential correspondence", "§0.1, §5 C04"),
+ "C05": C("Lean: exact characterisation of when read/write/written_to abort with a hidden dependency (iff-theorems), abort before modification for Context::write, creation-time invariant, and the global clause for static-role programs over ALL histories (C05_static_noHidden_history); every step except reset_task keeps NoHidden. " + CORR + "Oracle: every reader of a generated resource reaches its writer in the store dump of every build that returned; content unchanged at an aborted write.",
+          "global clause false for role-changing programs on the real code (K4, kernel-checked).", "Lean 4 proof of the detection logic and invariant + differential correspondence", "§0.1, §5 C05"),
+ "C06": C("Lean: overlap abort exactly when another writer is recorded, before the resource is modified; at most one writer per resource after every history whatever aborted (C06_single_writer_history); no self-overlap. " + CORR + "Oracle: <=1 writer per resource in every store dump, content unchanged at abort, well-formed programs never report an overlap.",
+          "", "Lean 4 proof of the detection logic and single-writer invariant + differential correspondence", "§0.1, §5 C06"),
+ "C07": C("Lean: executing-stack invariant (frames pairwise joined by dependency paths) preserved by every top-down AND bottom-up function also on abort; requiring a task on the stack aborts exactly cyclic with the state unchanged; no re-entry; bounded stack; no value on a cycle (C07_*, C07_bu_*); bottom-up builds never end in an internal BUG abort. " + CORR + "Oracle: statically cyclic programs abort with a cyclic-dependency error, no task is entered twice, no stack overflow/timeout.",
+          "", "Lean 4 invariant proof + differential correspondence", "§0.1, §5 C07"),
+ "C08": C("Lean: the recorded dependencies of a task are exactly the dependency operations of its latest execution with checker and stamp (C08_recorded_eq_performed(_bu), C08_recorded_eq_declared), reset clears, nothing left over, dropped dependencies never trigger. " + CORR + "Oracle: store dump (hook) of every executed task equals the dependency operations of its latest execution.",
+          "needs OneChecker; otherwise finding K2 (kernel-checked).", "Lean 4 proof + differential correspondence on the store dump", "§0.1, §5 C08"),
+ "C09": C("Lean: stamp provenance (reader content / content after the write / returned output) and verdict = own checker on own stamp, scheduling iff own checker rejects, for arbitrary checker semantics. " + CORR + "Instrumented harness checkers.",
+          "", "Lean 4 decision-logic theorems + differential correspondence", "§0.1, §5 C09"),
  "C10": C("Lean: Dag.Inv is preserved by every operation (induction over all op sequences): ranks a bijection onto 1..n, every edge upward, acyclic; add_edge reports a cycle iff dst reaches src or src = dst; rejected insertion leaves the graph unchanged; DFS fuel proved sufficient. " + CORR + "Exhaustive small-scope op sequences; independent edge-set oracle.",
-          "slotmap/hashlink/HashMap modelled as fresh ids/ordered lists/assoc lists; u32 ranks as Nat.", "Lean 4 invariant proof (Pearce-Kelly) + differential correspondence", "§5 C10"),
- "C11": C("Lean: frame lemmas of every mutating operation, queries agree with the edge set, refinement to an edge-set specification. " + CORR + "Complete public query surface compared after every operation; independent first-insertion-order oracle. Defect F1 found and repaired.",
-          "", "Lean 4 refinement proof + differential correspondence", "§5 C11"),
+          "slotmap/hashlink/HashMap modelled as fresh ids/ordered lists/assoc lists; u32 ranks as Nat.", "Lean 4 invariant proof (Pearce-Kelly) + differential correspondence", "§0.1, §5 C10"),
+ "C11": C("Lean: frame lemmas of every mutating operation, queries agree with the edge set, refinement to an edge-set specification incl. first-insertion order. " + CORR + "Complete public query surface compared after every operation; independent first-insertion-order oracle. Defect F1 found and repaired.",
+          "", "Lean 4 refinement proof + differential correspondence", "§0.1, §5 C11"),
  "C12": C("Lean: five iff-theorems (check against the stamp of another output is consistent exactly when the documented relation holds), reflexivity, agreement of the build model's checker table with them. " + CORR + "Exhaustive over a 6-element Result domain x 5 checkers, also through OutputCheckerObj (hook).",
-          "", "Lean 4 proof + exhaustive differential table", "§5 C12"),
- "C13": C("Lean: path-state model of the file resource: three stamping routes agree, checker iff-theorems, reader left rewound, write creates/truncates/refuses directories. " + CORR + "Real temporary files/directories with explicit mtimes. Defect F2 found and repaired.",
-          "the OS (metadata, read_dir, stale handles) and SHA-256 (assumed injective) are modelled, not verified.", "Lean 4 proof over a path-state model + differential correspondence on a real file system", "§5 C13"),
+          "", "Lean 4 proof + exhaustive differential table", "§0.1, §5 C12"),
+ "C13": C("Lean: path-state model of the file resource: three stamping routes agree, checker iff-theorems, reader left rewound, write creates/truncates/refuses directories, directory hash injective on name lists. " + CORR + "Real temporary files/directories with explicit mtimes (incl. same-size same-mtime rewrites). Defect F2 found and repaired.",
+          "the OS (metadata, read_dir, stale handles) and SHA-256 (assumed injective) are modelled, not verified.", "Lean 4 proof over a path-state model + differential correspondence on a real file system", "§0.1, §5 C13"),
  "C14": C("Lean: refinement of TypeToAnyMap + global map + MapWriter to per-type key->value maps: read-your-writes, isolation between key/resource types, get_or_set_default spec, checker iff, stamping routes agree. " + CORR + "Independent per-type slot-map oracle.",
-          "HashMap modelled as duplicate-free association list (MapRes.WF).", "Lean 4 refinement proof + differential correspondence", "§5 C14"),
+          "HashMap modelled as duplicate-free association list (MapRes.WF).", "Lean 4 refinement proof + differential correspondence", "§0.1, §5 C14"),
  "C15": C("Lean: eq_any iff same (type, value); the store shares a node iff names are equal. " + CORR + "Five task types with identical Debug/Hash (newtypes, Box/Rc/Arc) and two resource types; outputs, executions, node counts, key equality compared.",
-          "whether the Rust code keys on TypeId is established by the correspondence, the theorems are about the model.", "Lean 4 proof (thin) + differential correspondence", "§5 C15"),
- "C16": C("Lean: the only hash-ordered iteration (the two DFS change sets) does not influence the result: reorder is invariant under permutation, addEdgeWith any enumeration = addEdge, queue pop order depends only on the set and the ranks. " + CORR + "Complete event stream compared; thorough: independent processes (fresh hash seeds).",
-          "hash-seed behaviour itself is runtime; covered by the multi-process correspondence.", "Lean 4 proof of order-independence + differential correspondence", "§5 C16"),
- "C17": C("Lean: EventTracker stores exactly the recorded kinds since the last build_start with index = position; every helper iff its specification; composite delivers identical streams. " + CORR + "Oracle: nesting of start/end pairs, execute events = task-side log, require_end value = returned value, EventTracker contents. Defect F3 found and repaired.",
-          "trace-balance theorem over the interpreters pending (oracle covers it).", "Lean 4 proof + differential correspondence", "§5 C17"),
+          "whether the Rust code keys on TypeId is established by the correspondence, the theorems are about the model.", "Lean 4 proof (thin) + differential correspondence", "§0.1, §5 C15"),
+ "C16": C("Lean: the only hash-ordered iteration (the two DFS change sets) does not influence the result: reorder is invariant under permutation, addEdgeWith any enumeration = addEdge, queue pop order depends only on the set and the ranks. " + CORR + "Complete event stream compared, build histories and real-file checker histories; every case replayed in independent processes (fresh hash seeds).",
+          "hash-seed behaviour itself is runtime; covered by the multi-process correspondence.", "Lean 4 proof of order-independence + differential correspondence + independent replays", "§0.1, §5 C16"),
+ "C17": C("Lean: the trace of every session/build is balanced (aborted: a prefix of a balanced trace), execute_end carries the output, require_end the returned value, one start/end pair per execution; EventTracker stores exactly the recorded kinds since the last build_start with index = position; every helper iff its specification; composite delivers identical streams. " + CORR + "Oracle: nesting of start/end pairs, execute events = task-side log, require_end value = returned value, EventTracker contents. Defect F3 found and repaired.",
+          "strict nesting under StampTotal (an Err from a stamp leaves a read/write start open, as the code does).", "Lean 4 proof + differential correspondence", "§0.1, §5 C17"),
  "C18": C("Lean: a checker error is reported, makes the dependency inconsistent (re-execution / scheduling), never aborts; errors = errors of the validation events. " + CORR + "Failing checkers at every position.",
-          "", "Lean 4 proof + differential correspondence", "§5 C18"),
- "C19": C("Lean: store well-formedness at every abort point. " + CORR + "Panics injected at every operation, diagnosed violations, further sessions with the cause removed or kept; oracle: no BUG panic after an abort, results equal from-scratch results. Defect F4 found and repaired.",
-          "", "Lean 4 proof + differential correspondence", "§5 C19"),
- "C20": C("Lean: no abort for static-role programs. " + CORR + "Role-change programs; oracle: an incremental abort implies the from-scratch build of all known tasks aborts. Known finding K3 recorded.",
-          "K3 is a genuine defect recorded in known_findings.json.", "Lean 4 proof + differential correspondence", "§5 C20"),
+          "", "Lean 4 proof + differential correspondence", "§0.1, §5 C18"),
+ "C19": C("Lean: store well-formed after every history whatever aborted (C19_store_wf_history), no internal BUG abort in any later top-down session or bottom-up build (C19_no_bug_history_all, C07_bu_no_bug_history), later top-down sessions return from-scratch results after any mixed history with aborts (C19_results_after_abort_mixed; with writes under static roles: C01_full_history). " + CORR + "Panics injected at every operation, diagnosed violations, abort-repair-rebuild-rebuild histories; oracle: no BUG panic after an abort, results equal from-scratch results. Defect F4 found and repaired.",
+          "spurious abort after an abort = finding K6.", "Lean 4 invariant proof + differential correspondence", "§0.1, §5 C19"),
+ "C20": C("Lean: no cyclic/hidden/overlap abort for static-role programs in any history, top-down and bottom-up (C20_static_no_abort). " + CORR + "Role-change programs; oracle: an incremental abort implies the from-scratch build of all known tasks aborts.",
+          "role-changing programs: finding K3 (three patterns, kernel-checked), no positive theorem.", "Lean 4 invariant proof + differential correspondence", "§0.1, §5 C20"),
 }
 
 # properties whose Lean obligations are real theorems by now (the others are under construction)
